@@ -212,8 +212,11 @@ func c05Run(c c05Case, res *WRes) {
 		form.Set("scope", "a")
 	}
 	presenter := "C"
-	if c.Presenter == "other" {
+	switch c.Presenter {
+	case "other":
 		presenter = "B"
+	case "other-public":
+		presenter = "P"
 	}
 	n := w.Token(form, w.AuthFor(presenter))
 	res.Trans++
@@ -323,7 +326,7 @@ func init() {
 		for _, gr := range c05Granted {
 			for _, aud := range []bool{false, true} {
 				for _, pa := range c05Params {
-					for _, pr := range []string{"owner", "other"} {
+					for _, pr := range []string{"owner", "other", "other-public"} {
 						for _, ed := range c05Edits {
 							for _, hg := range []bool{true, false} {
 								for _, ch := range j.Chains {
@@ -376,7 +379,7 @@ func init() {
 				}
 			}
 		}
-		r.Bounds = map[string]any{"origins": c05Origins, "granted": c05Granted, "audience": []bool{false, true}, "refresh_params": c05Params, "presenters": []string{"owner", "other"}, "registration_edits": c05Edits,
+		r.Bounds = map[string]any{"origins": c05Origins, "granted": c05Granted, "audience": []bool{false, true}, "refresh_params": c05Params, "presenters": []string{"owner", "other confidential client", "other public client"}, "registration_edits": c05Edits,
 			"refresh_scope_configs": c05RScopes, "strategies": c05Strats, "client_has_refresh_grant_at_issuance": []bool{true, false}, "prior_chain_lengths": chains, "variants": []string{"plain", "partial consent (more requested than granted)", "registration replaced instead of mutated"}}
 		r.Rule = "full product of the listed dimensions; each case runs issuance -> (legitimate chain) -> registration edit -> refresh attempt -> introspection of the new pair on a fresh provider"
 		r.Assumptions = []string{"scope coverage is judged by an independent implementation of the three strategies (refstrat.go); audience by the documented prefix rule"}
